@@ -37,14 +37,14 @@ def run(ck):
     for i in range(n):
         rend = ["fourier", "hybrid", "pixel"][i % 3]
         N = rng.choice([48, 64])
-        p = {"xc": N / 2 + rng.uniform(-2.5, 2.5), "yc": N / 2 + rng.uniform(-2.5, 2.5), "flux": 100.0, "r_eff": rng.uniform(1.5, N / 12),
+        p = {"xc": N / 2 + rng.uniform(-2.5, 2.5), "yc": N / 2 + rng.uniform(-2.5, 2.5), "flux": 100.0, "r_eff": rng.uniform(1.5, (N / 2 - 3.5) / 6),
              "n": rng.uniform(0.8, 2.5 if rend == "pixel" else 6), "ellip": rng.uniform(0.3, 0.8) if i % 2 == 0 else rng.uniform(0, 0.8), "theta": rng.uniform(0, 6.28)}
         psf = "delta" if (rend == "pixel" and i % 2) else rng.choice(["gauss", "moffat"])
         cases.append({"renderer": rend, "N": N, "params": p, "psf": psf, "fwhm": rng.uniform(2.5, 4.0), "half_light": (i % 3 == 2 or i == 0)})
     for i in range(1 if quick else 8):
         # a hybrid renderer with most of the light in real-space components: elongated, generic angle
         N = rng.choice([48, 64])
-        p = {"xc": N / 2 + rng.uniform(-2.5, 2.5), "yc": N / 2 + rng.uniform(-2.5, 2.5), "flux": 100.0, "r_eff": rng.uniform(2.0, N / 12),
+        p = {"xc": N / 2 + rng.uniform(-2.5, 2.5), "yc": N / 2 + rng.uniform(-2.5, 2.5), "flux": 100.0, "r_eff": rng.uniform(2.0, (N / 2 - 3.5) / 6),
              "n": rng.uniform(1.0, 5), "ellip": rng.uniform(0.5, 0.8), "theta": rng.choice([0.5, 1.1, 2.0, 2.6]) + rng.uniform(-0.2, 0.2)}
         cases.append({"renderer": "hybrid8", "N": N, "params": p, "psf": "gauss", "fwhm": rng.uniform(2.5, 4.0), "half_light": False})
     for i in range(2 if quick else 12):
@@ -53,7 +53,7 @@ def run(ck):
         prof = ["sersic_exp", "doublesersic"][i % 2]
         e1, e2 = rng.choice([(0.3, 0.75), (0.75, 0.3), (0.35, 0.6)])
         p = {"xc": N / 2 + rng.uniform(-2.5, 2.5), "yc": N / 2 + rng.uniform(-2.5, 2.5), "flux": 100.0, "f_1": rng.uniform(0.3, 0.7),
-             "r_eff_1": rng.uniform(2.0, N / 16), "r_eff_2": rng.uniform(2.5, N / 12), "ellip_1": e1, "ellip_2": e2, "theta": rng.uniform(0, 6.28)}
+             "r_eff_1": rng.uniform(2.0, N / 16), "r_eff_2": rng.uniform(2.5, (N / 2 - 3.5) / 6), "ellip_1": e1, "ellip_2": e2, "theta": rng.uniform(0, 6.28)}
         if prof == "sersic_exp":
             p["n"] = rng.uniform(1.0, 3.0)
         else:
@@ -61,7 +61,7 @@ def run(ck):
         cases.append({"renderer": ["fourier", "hybrid", "pixel"][(i // 2) % 3], "profile": prof, "N": N, "params": p, "psf": "gauss", "fwhm": rng.uniform(2.5, 4.0), "half_light": False})
     for i in range(1 if quick else 6):
         N = 64
-        p = {"xc": N / 2 + rng.uniform(1.0, 3.0), "yc": N / 2 - rng.uniform(1.0, 3.0), "flux": 100.0, "f_ps": rng.uniform(0.3, 0.6), "r_eff": rng.uniform(2.0, N / 12),
+        p = {"xc": N / 2 + rng.uniform(1.0, 3.0), "yc": N / 2 - rng.uniform(1.0, 3.0), "flux": 100.0, "f_ps": rng.uniform(0.3, 0.6), "r_eff": rng.uniform(2.0, (N / 2 - 3.5) / 6),
              "n": rng.uniform(0.8, 2.5), "ellip": rng.uniform(0.3, 0.7), "theta": rng.uniform(0, 6.28)}
         cases.append({"renderer": ["fourier", "hybrid", "pixel"][(i + ck.seed) % 3], "profile": "sersic_pointsource", "N": N, "params": p, "psf": "gauss", "fwhm": rng.uniform(2.5, 4.0),
                       "half_light": False, "centroid_only": True})
